@@ -339,7 +339,8 @@ class Verifier:
             for lab, excs, cond in k.must_raise:
                 out.append(mk(lab, z3.Not(smt.lift(cond(ctx)).z), "must-raise", excs=list(excs)))
             if k.fresh_result and isinstance(val, SV):
-                out.append(mk("fresh-result", z3.BoolVal(bool(val.fresh)), "frame"))
+                shared = val.z.get_id() in r.state.ghost.get("escaped", ())  # stored into a caller's container on this path
+                out.append(mk("fresh-result", z3.BoolVal(bool(val.fresh) and not shared), "frame"))
             if isinstance(r.value, SV) and r.value.td in (smt.TTagSet, smt.TOptTagSet) and ex.annotation_kind(("method", fi.cls, fi)) == "frozen":
                 # callers rely on the declared ``-> frozenset[...]`` (C09: what gets stored in frozen dataclasses is hashable)
                 okk = z3.BoolVal(getattr(r.value, "kind", None) == "frozen")
